@@ -420,6 +420,17 @@ func (p *c09Peer) serveUDP() {
 	}
 }
 
+// closeConns closes every connection accepted so far (the listener stays)
+func (p *c09Peer) closeConns() {
+	p.log.add(c09Event{Kind: "close", Call: -1})
+	p.mu.Lock()
+	for _, c := range p.conns {
+		c.Close()
+	}
+	p.conns = nil
+	p.mu.Unlock()
+}
+
 // drain waits for the scheduled replies, then closes everything.
 func (p *c09Peer) drain(max time.Duration) {
 	ch := make(chan struct{})
